@@ -35,6 +35,8 @@ class Engine:
         self.axiom_notes = []
         self.ufs = {}
         self.unknowns = 0
+        self.cross_check = False
+        self.cross = []           # (z3 verdict, cvc5 verdict) per cross-checked final query
 
     # ---- solver plumbing (one incremental solver per path; extra terms via push/pop)
     def _new_path(self):
@@ -103,6 +105,39 @@ class Engine:
         self.axioms.append(term)
         if note not in self.axiom_notes:
             self.axiom_notes.append(note)
+
+    def cvc5_verdict(self, *terms, tlimit_ms=20000):
+        """Second opinion on `axioms AND path condition AND terms` from cvc5 (through SMT-LIB text).  Returns
+        'sat' | 'unsat' | 'unknown' | 'error: ...'.  Used in the thorough tier to diff the two solvers."""
+        try:
+            import cvc5
+            s2 = z3.Solver()
+            for a in self.axioms:
+                s2.add(a)
+            for t in self.pc:
+                s2.add(t)
+            for t in terms:
+                s2.add(t)
+            txt = s2.to_smt2()
+            slv = cvc5.Solver()
+            slv.setOption("tlimit-per", str(int(tlimit_ms)))
+            slv.setLogic("ALL")
+            parser = cvc5.InputParser(slv)
+            parser.setStringInput(cvc5.InputLanguage.SMT_LIB_2_6, txt, "query")
+            sm = parser.getSymbolManager()
+            verdict = "unknown"
+            while True:
+                cmd = parser.nextCommand()
+                if cmd.isNull():
+                    break
+                out = str(cmd.invoke(slv, sm)).strip()
+                if out in ("sat", "unsat", "unknown"):
+                    verdict = out
+                elif out.startswith("(error"):
+                    return "error: " + out[:120]
+            return verdict
+        except Exception as e:  # noqa
+            return "error: " + repr(e)[:120]
 
     def prove_any(self, forms):
         """Several logically equivalent formulations of one claim (solvers are sensitive to the shape of non-linear
@@ -182,6 +217,12 @@ class Engine:
                     yield {"status": "unknown"}
                 continue
             r, s = self._check(z3.Not(term))
+            if self.cross_check and r in ("sat", "unsat"):
+                other = self.cvc5_verdict(z3.Not(term))
+                self.cross.append((r, other))
+                if other in ("sat", "unsat") and other != r:
+                    yield {"status": "unknown", "note": f"solver disagreement: z3 {r}, cvc5 {other}"}
+                    continue
             if r == "unsat":
                 r2, s2 = self._check()
                 yield {"status": "holds", "witness": self._model(s2) if r2 == "sat" else None}
